@@ -499,6 +499,9 @@ func (g *structGen) sliceField(name string) (desc.F, desc.V) {
 	for i := 0; i < n; i++ {
 		v.E = append(v.E, genScalar(g.t, ek, "elem", true))
 	}
+	if rapid.IntRange(0, 9).Draw(g.t, "dozens") == 6 {
+		v = dozens(g.t, ek)
+	}
 	if n > 0 && rapid.IntRange(0, 39).Draw(g.t, "bulk") == 23 {
 		// a payload: ten thousand and more elements (counters and buffers inside the walker see them all)
 		if rapid.Bool().Draw(g.t, "bulkBytes") {
@@ -528,6 +531,22 @@ func (g *structGen) sliceField(name string) (desc.F, desc.V) {
 	}
 	g.addExtraTags(&f, "slice", v)
 	return f, v
+}
+
+// dozens: a slice of 33..70 pairwise distinct elements in descending order (whoever sorts,
+// deduplicates or truncates what the caller handed in changes it visibly).
+func dozens(t *rapid.T, ek string) desc.V {
+	n := rapid.IntRange(33, 70).Draw(t, "dozensLen")
+	v := desc.V{}
+	for i := 0; i < n; i++ {
+		if ek == "string" {
+			v.E = append(v.E, desc.Str(fmt.Sprintf("s%02d", n-i)))
+		} else {
+			v.E = append(v.E, desc.V{I: int64(n - i)})
+		}
+	}
+	ev.Class("slice of 33-70 distinct elements in descending order")
+	return v
 }
 
 // genStruct draws a struct type and a value for it.
